@@ -100,6 +100,7 @@ func init() {
 	reg("isleaf", Leaf, 1, ix(0), nil, false, 1)
 	reg("lowleaf", Leaf, 1, ix(0), nil, false, 1)
 	reg("asleaf", Leaf, 1, ix(0), nil, false, 1)
+	reg("hdleaf", Leaf, 3, ix(0, 1, 2), nil, false, 1) // third-party leaf with its own hint and detail
 	reg("stacksafeleaf", Leaf, 1, ix(0), nil, false, 0) // weight 0: only placed explicitly (C15); an unregistered type loses its stack in transfer
 	// library wrappers
 	reg("wrap", Wrap, 1, nil, ix(0), true, 4)
@@ -118,6 +119,7 @@ func init() {
 	reg("safedetails", Wrap, 3, ix(1), ix(0, 2), true, 2)
 	reg("telemetry", Wrap, 2, nil, ix(0, 1), true, 2)
 	reg("domain", Wrap, 1, nil, ix(0), true, 2)
+	reg("domainnone", Wrap, 0, nil, nil, true, 1) // WithDomain(e, NoDomain): the boundary value
 	reg("issuelink", Wrap, 2, nil, ix(0, 1), true, 2)
 	reg("issuelinkd", Wrap, 1, nil, ix(0), true, 1) // detail only, no URL
 	reg("issuelinku", Wrap, 1, nil, ix(0), true, 1) // URL only, no detail
@@ -148,10 +150,13 @@ func init() {
 	reg("fmtrwrap", Wrap, 1, ix(0), nil, false, 1)
 	reg("elidewrap", Wrap, 1, ix(0), nil, false, 1)
 	reg("lowwrap", Wrap, 1, ix(0), nil, false, 1)
+	reg("hdwrap", Wrap, 3, ix(0, 1, 2), nil, false, 1) // third-party wrapper with its own hint and detail
+	reg("ncwrap", Wrap, 1, ix(0), nil, false, 1)       // value-typed, not comparable
 	// barriers
 	reg("handled", Barrier, 0, nil, nil, true, 3)
 	reg("handledmsg", Barrier, 1, ix(0), nil, true, 2)
 	reg("handledmsgf", Barrier, 2, ix(1), ix(0), true, 1)
+	reg("handledmsgf0", Barrier, 1, nil, ix(0), true, 1) // a format (with escaped %) and NO arguments
 	reg("opaque", Barrier, 0, nil, nil, true, 1)
 	reg("handleddomain", Barrier, 1, nil, ix(0), true, 1)
 	reg("handleddommsg", Barrier, 2, ix(1), ix(0), true, 1)
@@ -302,6 +307,8 @@ func Build1(n *Node, m Built) error {
 		return &FmtrLeaf{S[0]}
 	case "ncleaf":
 		return NCLeaf{Msg: S[0], X: []int{1}}
+	case "hdleaf":
+		return &HDLeaf{S[0], S[1], S[2]}
 	case "isleaf":
 		return &IsLeaf{S[0]}
 	case "lowleaf":
@@ -343,6 +350,8 @@ func Build1(n *Node, m Built) error {
 		return errors.WithTelemetry(kids[0], S...)
 	case "domain":
 		return errors.WithDomain(kids[0], errors.NamedDomain(S[0]))
+	case "domainnone":
+		return errors.WithDomain(kids[0], errors.NoDomain)
 	case "issuelink":
 		return errors.WithIssueLink(kids[0], errors.IssueLink{IssueURL: S[0], Detail: S[1]})
 	case "issuelinkd":
@@ -409,6 +418,10 @@ func Build1(n *Node, m Built) error {
 		return &ElideWrap{kids[0], S[0]}
 	case "lowwrap":
 		return &LOW{Msg: S[0], C: kids[0]}
+	case "hdwrap":
+		return &HDWrap{kids[0], S[0], S[1], S[2]}
+	case "ncwrap":
+		return NCWrap{C: kids[0], Msg: S[0], X: []int{1}}
 	// ---- barriers
 	case "handled":
 		return errors.Handled(hid[0])
@@ -416,6 +429,8 @@ func Build1(n *Node, m Built) error {
 		return errors.HandledWithMessage(hid[0], S[0])
 	case "handledmsgf":
 		return barriers.HandledWithMessagef(hid[0], esc(S[0])+" %s", S[1])
+	case "handledmsgf0":
+		return barriers.HandledWithMessagef(hid[0], esc(S[0])+" 100%%")
 	case "opaque":
 		return errors.Opaque(hid[0])
 	case "handleddomain":
